@@ -3595,7 +3595,9 @@ func (vm *Thread) opSelect() value.Value {
 		}
 	}
 
+	vhook("select.try", selectData, channels)
 	chosenCaseIndex, val, channelOpen := reflect.Select(reflectSelectCases)
+	vhook("select.ok", selectData, channels, chosenCaseIndex-1, channelOpen)
 	if chosenCaseIndex == 0 {
 		return value.ExecutionAbortedError.ToValue()
 	}
